@@ -14,7 +14,7 @@ import re
 from .. import sym, irrules
 from ..sym import const_of, single_atom, atom, L
 from ..irrules import Report, base_name, obj_of, where
-from .ir_bounds import cmp_atom, facts, known_lt, known_le
+from .ir_bounds import cmp_atom, facts, known_lt, known_le, is_max_term as ir_bounds_is_max
 
 
 def class_n(f):
@@ -116,6 +116,8 @@ class PairRule(sym.Rule):
                         C, ca = v, a
             self.writers.add((bn, kind))
             cls, why = self.classify(obj, P, C, pa, ca, rs[1], st, f, eng)
+            if cls == 'fresh' and kind == 'ret' and not self.cfg.ndebug:
+                self.check_fresh(obj, C, st, f, eng)        # every path: the evidence is a path condition
             dk = (f.name, kind, repr(obj), cls, why)
             if dk in self.reports:
                 continue
@@ -125,6 +127,7 @@ class PairRule(sym.Rule):
                 self.reports[dk] = Report('R02.1', True, None,
                                           sample={'function': bn, 'exit': kind, 'pair': cls,
                                                   'config': self.cfg.name})
+
             elif cls == 'stolen':
                 self.reports[dk] = Report('R02.1', True, None,
                                           sample={'function': bn, 'exit': kind, 'pair': cls,
@@ -187,6 +190,72 @@ class PairRule(sym.Rule):
         if P[2] == obj:
             return 'bad', 'inline buffer pointer with a non-constant capacity'
         return 'bad', 'pointer and capacity of unrelated provenance'
+
+    def check_fresh(self, obj, C, st, f, eng):
+        """R02.7: a block obtained from the allocator is committed only with a capacity that the path
+        shows to exceed the inline capacity.  Otherwise has_allocation () (N < capacity) is false for a
+        container that owns a heap block: the block is taken for the inline buffer and never released.
+        Judged on the assert flavour, where the header's own `assert (InlineCapacity < n)` at its
+        allocation helpers is a path fact."""
+        n = class_n(f)
+        if n is None:
+            return
+        bn = base_name(f.pretty)
+        dk = ('fresh', f.name, repr(obj))
+        fs = facts(st)
+
+        capcells = set(a for a, tg in eng.field_tag.items() if tg == 1 and a[2] == obj)
+
+        def is_cap0(x):
+            # the capacity this container had on entry: >= N by the container invariant (entry contract)
+            i = init_of(x)
+            return bool(i and i[0] in capcells and not i[1])
+
+        def ge_n(x, depth):
+            cx = const_of(x)
+            if cx is not None:
+                return cx >= n
+            return is_cap0(x) or (depth < 2 and gt_n(x, depth + 1))
+
+        def gt_n(t, depth=0):
+            ct = const_of(t)
+            if ct is not None:
+                return ct > n
+            if ir_bounds_is_max(t):
+                return True           # max_size () itself (saturated growth): far above any inline capacity
+            if n > 0 and len(t[2]) == 1 and t[1] >= 0 and t[2][0][1] >= 2 and is_cap0(sym.atom(t[2][0][0])):
+                return True           # k * capacity, k >= 2, capacity >= N > 0
+            if len(t[2]) == 1 and t[1] > 0 and t[2][0][1] == 1 and is_cap0(sym.atom(t[2][0][0])):
+                return True           # capacity + positive constant
+            for (k, x, y) in fs:
+                if y != t or x == t:
+                    continue
+                if k == 'lt' and ge_n(x, depth):
+                    return True       # N <= x < t
+                if k == 'le' and (const_of(x) is not None and const_of(x) > n or (depth < 2 and const_of(x) is None and gt_n(x, depth + 1))):
+                    return True       # N < x <= t
+            if n == 0:
+                for (c, v) in st.conds:
+                    a = single_atom(c)
+                    if a is not None and a[0] == 'cmp' and a[1] == 'eq' and v is False and (a[2] == t or a[2] == sym.lin_scale(t, -1)):
+                        return True
+            return False
+        ok = gt_n(C)
+        prev = self.reports.get(dk)
+        if prev is not None and not prev.ok:
+            return
+        if ok:
+            if prev is None:
+                self.reports[dk] = Report('R02.7', True, None, sample={'function': bn, 'inline_capacity': n, 'config': self.cfg.name})
+        else:
+            self.reports[dk] = Report(
+                'R02.7', False, {'function': bn, 'defect': 'heap block committed with a capacity not shown to exceed the inline capacity'},
+                'R02.7: %s commits a block obtained from the allocator with a capacity that no path condition shows to be greater than '
+                'the inline capacity %d: with capacity <= N the container looks inlined although it owns a heap block, which is then '
+                'never released (%s)' % (bn, n, self.cfg.name),
+                {'function': f.pretty[:300], 'function_line': f.src_line, 'config': self.cfg.name, 'capacity_committed': repr(C)[:200],
+                 'path_conditions': [repr(c)[:160] + '=' + str(v) for c, v in st.conds][-8:],
+                 'file': 'source/include/gch/small_vector.hpp'})
 
     def check_steal(self, obj, src, st, f, eng, kind):
         n = class_n(f)
